@@ -202,6 +202,9 @@ pub enum Op {
     Reset,
     Enlarge(usize),
     CloneSwap,
+    /// `dst.clone_from(&cur)` where dst is another bitmap of (byte size, page size) with every page
+    /// dirty; the history continues on dst, which must now be an independent copy of cur
+    CloneFromInto(usize, usize),
     MarkDirty(usize, usize),
     /// mark through slice_at(o1).slice_at(o2): (o1, o2, off, len)
     SliceMark(usize, usize, usize, usize),
@@ -219,6 +222,7 @@ impl Op {
             Op::Reset => "reset",
             Op::Enlarge(..) => "enlarge",
             Op::CloneSwap => "clone",
+            Op::CloneFromInto(..) => "clone_from",
             Op::MarkDirty(..) => "mark_dirty",
             Op::SliceMark(..) => "slice_at.slice_at.mark_dirty",
             Op::ArcSliceMark(..) => "ArcSlice.slice_at.mark_dirty",
@@ -269,6 +273,14 @@ fn apply(b: &mut Arc<AtomicBitmap>, m: &mut Model, op: &Op) -> bool {
                 // continue with the clone; mutate the original afterwards to show independence
                 let c = (**b).clone();
                 let old = std::mem::replace(b, Arc::new(c));
+                old.set_addr_range(0, usize::MAX);
+                old.reset();
+            }
+            Op::CloneFromInto(bytes, page) => {
+                let mut dst = AtomicBitmap::new(*bytes, std::num::NonZeroUsize::new((*page).max(1)).unwrap());
+                dst.set_addr_range(0, usize::MAX);
+                dst.clone_from(&**b);
+                let old = std::mem::replace(b, Arc::new(dst));
                 old.set_addr_range(0, usize::MAX);
                 old.reset();
             }
@@ -406,7 +418,19 @@ fn gen_op(r: &mut Rng, m: &Model, allow_enlarge: bool) -> Op {
             4 => m.page * 63 + 1,
             _ => r.usize_below(4 * m.page + 2),
         }),
-        70..=73 => Op::CloneSwap,
+        70..=71 => Op::CloneSwap,
+        72..=73 => {
+            // destination larger / smaller / same number of 64-page words, other page size
+            let page = if r.chance(1, 2) { m.page } else { 1 + r.usize_below(9) };
+            let bytes = match r.below(5) {
+                0 => 0,
+                1 => m.byte_size,
+                2 => m.byte_size + page * 64 * (1 + r.usize_below(3)),
+                3 => m.byte_size / 2,
+                _ => r.usize_below(2 * m.byte_size + 600),
+            };
+            Op::CloneFromInto(bytes, page)
+        }
         74..=81 => {
             let (s, l) = gen_range(r, m);
             Op::MarkDirty(s, l)
@@ -443,7 +467,7 @@ fn exhaustive_small(args: &Args) {
                 (0..pages).filter(|p| p % 2 == 1).collect(),
                 (0..pages).filter(|p| p % 2 == 0).collect(),
             ];
-            let mut ops = vec![Op::GetAndReset, Op::Reset, Op::CloneSwap];
+            let mut ops = vec![Op::GetAndReset, Op::Reset, Op::CloneSwap, Op::CloneFromInto(0, 1), Op::CloneFromInto(4096, 1), Op::CloneFromInto(64 * 200, 7)];
             for s in 0..=lim {
                 for l in 0..=lim {
                     ops.push(Op::SetRange(s, l));
@@ -561,7 +585,7 @@ pub fn run(args: &Args) {
         for step in 0..nops {
             let allow_enl = m.byte_size < 200_000;
             let op = gen_op(&mut r, &m, allow_enl);
-            if matches!(op, Op::Enlarge(_) | Op::CloneSwap) {
+            if matches!(op, Op::Enlarge(_) | Op::CloneSwap | Op::CloneFromInto(..)) {
                 depth += 1;
             }
             op_key(&m, &op, if depth == 0 { "d0" } else if depth < 3 { "d1-2" } else { "d3+" });
